@@ -21,5 +21,11 @@ def d8(f, x, h, scale=0.0):
     (a function computed as 1 + x - 1 is only resolved to eps*1, whatever the size of its values)"""
     d1, m1 = _d8(f, x, h)
     d2, m2 = _d8(f, x, h / 2.0)
-    est = abs(d1 - d2) + 8.0 * EPS * max(m1, m2, scale) / (h / 2.0)
-    return d2, est
+    d3, m3 = _d8(f, x, h / 4.0)
+    noise = 8.0 * EPS * max(m1, m2, m3, scale) / (h / 4.0)
+    est = max(abs(d1 - d2), abs(d2 - d3)) + noise
+    # two agreeing estimates can both be wrong when the stencil spans several oscillations of f (cos(x*x) at
+    # x = 25 with h = 0.01): the estimates must CONVERGE as the step is halved, otherwise nothing is claimed
+    if abs(d2 - d3) > 0.25 * abs(d1 - d2) + 4.0 * noise:
+        return d3, float("inf")
+    return d3, est
